@@ -128,7 +128,9 @@ Lemma srev_app a b : srev (a ++ b) = srev b ++ srev a.
 Proof.
   induction a as [|c a IH]; cbn.
   - rewrite sapp_nil_r. reflexivity.
-  - unfold srev at 1. cbn. rewrite rev_str_acc, IH. unfold srev at 3. cbn. rewrite (rev_str_acc a (String c "")), sapp_assoc. reflexivity.
+  - change (srev (String c (a ++ b))) with (rev_str (a ++ b) (String c "")).
+    change (srev (String c a)) with (rev_str a (String c "")).
+    rewrite (rev_str_acc (a ++ b)), (rev_str_acc a), IH, sapp_assoc. reflexivity.
 Qed.
 Lemma srev_invol s : srev (srev s) = s.
 Proof.
@@ -176,7 +178,7 @@ Qed.
 
 Definition idx_text (w1 inner w2 : string) : string := "[" ++ w1 ++ inner ++ w2 ++ "]".
 Lemma idx_text_len w1 inner w2 : String.length (idx_text w1 inner w2) = 2 + String.length (w1 ++ inner ++ w2).
-Proof. unfold idx_text. cbn. rewrite !slen_app. cbn. rewrite !slen_app. lia. Qed.
+Proof. unfold idx_text. cbn [append String.length]. rewrite !slen_app. cbn [String.length]. lia. Qed.
 
 Lemma index_group_idx w1 inner w2 after :
   blanks w1 = true -> blanks w2 = true -> idx_inner_ok inner = true ->
@@ -258,14 +260,14 @@ Lemma try_invalid_nonalpha kws c r : kws_ok kws = true -> is_alpha_ c = false ->
 Proof.
   intros Hk Hc. induction kws as [|k kws IH]; [reflexivity|].
   cbn [kws_ok forallb] in Hk. apply andb_true_iff in Hk as [Hk0 Hk]. apply andb_true_iff in Hk0 as [Hka _].
-  cbn [try_invalid]. destruct k as [|d k]; [discriminate|]. cbn in Hka. cbn [prefix_rest].
+  cbn [try_invalid]. destruct k as [|d k]; [discriminate|]. cbn [head_sat] in Hka. cbn [prefix_rest].
   destruct (Ascii.eqb_spec d c) as [->|]; [congruence|]. apply IH. exact Hk.
 Qed.
 Lemma try_keyword_nonalpha kws c r : kws_ok kws = true -> is_alpha_ c = false -> try_keyword kws (String c r) = None.
 Proof.
   intros Hk Hc. induction kws as [|k kws IH]; [reflexivity|].
   cbn [kws_ok forallb] in Hk. apply andb_true_iff in Hk as [Hk0 Hk]. apply andb_true_iff in Hk0 as [Hka _].
-  cbn [try_keyword]. destruct k as [|d k]; [discriminate|]. cbn in Hka. cbn [prefix_rest].
+  cbn [try_keyword]. destruct k as [|d k]; [discriminate|]. cbn [head_sat] in Hka. cbn [prefix_rest].
   destruct (Ascii.eqb_spec d c) as [->|]; [congruence|]. apply IH. exact Hk.
 Qed.
 
@@ -275,11 +277,11 @@ Proof.
 Qed.
 
 Lemma try_function_nonalpha c r : is_alpha_ c = false -> try_function (String c r) = None.
-Proof. intros H. cbn. rewrite H. reflexivity. Qed.
+Proof. intros H. unfold try_function. rewrite H. reflexivity. Qed.
 Lemma try_bracketed_other op cl k s : head_not (fun c => Ascii.eqb c op) s = true -> try_bracketed op cl k s = None.
 Proof. destruct s as [|c s]; cbn; [reflexivity|]. intros H. apply negb_true_iff in H. rewrite H. reflexivity. Qed.
 Lemma try_variable_nonalpha c r : is_alpha_ c = false -> try_variable (String c r) = None.
-Proof. intros H. cbn. rewrite H. reflexivity. Qed.
+Proof. intros H. unfold try_variable. rewrite H. reflexivity. Qed.
 
 (* a name followed by something that is not "blanks (": the FUNCTION alternative fails *)
 Lemma try_function_name w after :
@@ -319,6 +321,16 @@ Proof.
   destruct (q c) eqn:Eq; [rewrite (H _ Eq) in E; discriminate|reflexivity].
 Qed.
 
+Lemma try_variable_name name rest :
+  is_ident name = true -> head_not is_idc rest = true ->
+  try_variable (name ++ rest) = Some (with_index KVariable name (String.length name) rest).
+Proof.
+  intros Hid Hr. destruct (ident_nonempty _ Hid) as (c & r & En & Hc & Hall). subst name.
+  cbn [append]. unfold try_variable. rewrite Hc.
+  change (String c (r ++ rest)) with (String c r ++ rest).
+  rewrite (span_while_all is_idc (String c r) rest Hall Hr). reflexivity.
+Qed.
+
 Theorem match_here_var_idx pw name w1 inner w2 after :
   is_ident name = true -> kw_free name = true ->
   blanks w1 = true -> blanks w2 = true -> idx_inner_ok inner = true ->
@@ -341,9 +353,7 @@ Proof.
   2:{ rewrite En. cbn. pose proof (alpha_not_tick c Hc) as H. repeat (apply andb_true_iff in H as [H ?]). assumption. }
   rewrite (try_bracketed_other "<" ">").
   2:{ rewrite En. cbn. pose proof (alpha_not_tick c Hc) as H. repeat (apply andb_true_iff in H as [H ?]). assumption. }
-  cbn [or_else]. unfold try_variable. rewrite En at 1. cbn [append]. rewrite Hc. rewrite <- En.
-  change (String c (r ++ rest)) with (String c r ++ rest). rewrite <- En.
-  rewrite (span_while_all is_idc name rest Hall Hrest_idc).
+  cbn [or_else]. rewrite (try_variable_name name rest Hid Hrest_idc).
   unfold with_index, rest. rewrite (index_group_idx w1 inner w2 after B1 B2 Hi). reflexivity.
 Qed.
 
@@ -370,9 +380,7 @@ Proof.
   2:{ rewrite En. cbn. pose proof (alpha_not_tick c Hc) as H. repeat (apply andb_true_iff in H as [H ?]). assumption. }
   rewrite (try_bracketed_other "<" ">").
   2:{ rewrite En. cbn. pose proof (alpha_not_tick c Hc) as H. repeat (apply andb_true_iff in H as [H ?]). assumption. }
-  cbn [or_else]. unfold try_variable. rewrite En at 1. cbn [append]. rewrite Hc.
-  change (String c (r ++ after)) with (String c r ++ after). rewrite <- En.
-  rewrite (span_while_all is_idc name after Hall Hidc).
+  cbn [or_else]. rewrite (try_variable_name name after Hid Hidc).
   unfold with_index. rewrite (index_group_none after Hfb). reflexivity.
 Qed.
 
@@ -380,7 +388,7 @@ Qed.
 Definition brk_text (op cl : ascii) (w1 name w2 : string) : string := String op (w1 ++ name ++ w2 ++ String cl "").
 Lemma brk_text_len op cl w1 name w2 :
   String.length (brk_text op cl w1 name w2) = 2 + String.length w1 + String.length name + String.length w2.
-Proof. unfold brk_text. cbn. rewrite !slen_app. cbn. lia. Qed.
+Proof. unfold brk_text. cbn [append String.length]. rewrite !slen_app. cbn [String.length]. lia. Qed.
 
 Lemma blanks_head_not_idc_after w x : blanks w = true -> head_not is_space x = true -> span_while is_space (w ++ x) = (w, x).
 Proof. intros. apply span_while_all; assumption. Qed.
@@ -397,16 +405,17 @@ Proof.
   assert (Hsp : is_space c = false).
   { pose proof (fnc_not_space c (idc_fnc _ (alpha_idc _ Hc))) as H. apply negb_true_iff in H. exact H. }
   rewrite (span_while_all is_space w1 (name ++ w2 ++ String cl "" ++ after) B1).
-  2:{ rewrite En. cbn. rewrite Hsp. reflexivity. }
-  rewrite En at 1. cbn [append]. rewrite Hc.
-  change (String c (r ++ w2 ++ String cl "" ++ after)) with (String c r ++ w2 ++ String cl "" ++ after). rewrite <- En.
-  rewrite (span_while_all is_idc name (w2 ++ String cl "" ++ after) Hall).
-  2:{ destruct w2 as [|d w2]; cbn.
+  2:{ rewrite En. cbn [append head_not]. rewrite Hsp. reflexivity. }
+  subst name. cbn [append]. rewrite Hc.
+  change (String c (r ++ w2 ++ String cl (after))) with (String c r ++ w2 ++ String cl "" ++ after).
+  rewrite (span_while_all is_idc (String c r) (w2 ++ String cl "" ++ after) Hall).
+  2:{ destruct w2 as [|d w2]; cbn [append head_not].
       - rewrite Hci. reflexivity.
-      - cbn in B2. apply andb_true_iff in B2 as [B2 _]. pose proof (space_not_fnc d B2) as H. apply negb_true_iff in H.
+      - unfold blanks in B2. cbn [all_chars] in B2. apply andb_true_iff in B2 as [B2 _].
+        pose proof (space_not_fnc d B2) as H. apply negb_true_iff in H.
         unfold is_fnc in H. apply orb_false_iff in H as [H _]. rewrite H. reflexivity. }
   rewrite (span_while_all is_space w2 (String cl "" ++ after) B2).
-  2:{ cbn. rewrite Hcs. reflexivity. }
+  2:{ cbn [append head_not]. rewrite Hcs. reflexivity. }
   cbn [append]. rewrite Ascii.eqb_refl. reflexivity.
 Qed.
 
@@ -415,15 +424,19 @@ Theorem match_here_par pw w1 name w2 after :
   match_here pw (brk_text "{" "}" w1 name w2 ++ after)
   = Some (with_index KParameter name (String.length (brk_text "{" "}" w1 name w2)) after).
 Proof.
-  intros Hid B1 B2. unfold match_here.
+  intros Hid B1 B2.
+  pose proof (try_bracketed_text "{" "}" KParameter w1 name w2 after eq_refl eq_refl Hid B1 B2) as Hb.
+  remember (brk_text "{" "}" w1 name w2 ++ after) as s eqn:Es.
+  assert (Hs : exists rest, s = String "{" rest) by (rewrite Es; unfold brk_text; cbn [append]; eexists; reflexivity).
+  destruct Hs as (rest & Hs). clear Es. subst s.
+  assert (Hk : (if pw then None else try_keyword KW (String "{" rest)) = None)
+    by (destruct pw; [reflexivity|apply try_keyword_nonalpha; [exact KW_ok|reflexivity]]).
+  unfold match_here.
   rewrite try_verbatim_none by reflexivity.
-  unfold brk_text at 1 2 3 4. cbn [append].
-  rewrite (try_invalid_nonalpha KW "{" _ KW_ok eq_refl).
-  replace (if pw then None else try_keyword KW _) with (@None tmatch)
-    by (destruct pw; [reflexivity|symmetry; apply (try_keyword_nonalpha KW "{" _ KW_ok eq_refl)]).
-  rewrite (try_function_nonalpha "{" _ eq_refl). cbn [or_else].
-  change (String "{" ((w1 ++ name ++ w2 ++ "}") ++ after)) with (brk_text "{" "}" w1 name w2 ++ after).
-  rewrite (try_bracketed_text "{" "}" KParameter w1 name w2 after eq_refl eq_refl Hid B1 B2). reflexivity.
+  rewrite (try_invalid_nonalpha KW "{" rest KW_ok eq_refl).
+  rewrite Hk.
+  rewrite (try_function_nonalpha "{" rest eq_refl).
+  cbn [or_else]. rewrite Hb. reflexivity.
 Qed.
 
 Theorem match_here_err pw w1 name w2 after :
@@ -431,16 +444,20 @@ Theorem match_here_err pw w1 name w2 after :
   match_here pw (brk_text "<" ">" w1 name w2 ++ after)
   = Some (with_index KError name (String.length (brk_text "<" ">" w1 name w2)) after).
 Proof.
-  intros Hid B1 B2. unfold match_here.
+  intros Hid B1 B2.
+  pose proof (try_bracketed_text "<" ">" KError w1 name w2 after eq_refl eq_refl Hid B1 B2) as Hb.
+  remember (brk_text "<" ">" w1 name w2 ++ after) as s eqn:Es.
+  assert (Hs : exists rest, s = String "<" rest) by (rewrite Es; unfold brk_text; cbn [append]; eexists; reflexivity).
+  destruct Hs as (rest & Hs). clear Es. subst s.
+  assert (Hk : (if pw then None else try_keyword KW (String "<" rest)) = None)
+    by (destruct pw; [reflexivity|apply try_keyword_nonalpha; [exact KW_ok|reflexivity]]).
+  unfold match_here.
   rewrite try_verbatim_none by reflexivity.
-  unfold brk_text at 1 2 3 4 5. cbn [append].
-  rewrite (try_invalid_nonalpha KW "<" _ KW_ok eq_refl).
-  replace (if pw then None else try_keyword KW _) with (@None tmatch)
-    by (destruct pw; [reflexivity|symmetry; apply (try_keyword_nonalpha KW "<" _ KW_ok eq_refl)]).
-  rewrite (try_function_nonalpha "<" _ eq_refl).
-  rewrite (try_bracketed_other "{" "}") by reflexivity. cbn [or_else].
-  change (String "<" ((w1 ++ name ++ w2 ++ ">") ++ after)) with (brk_text "<" ">" w1 name w2 ++ after).
-  rewrite (try_bracketed_text "<" ">" KError w1 name w2 after eq_refl eq_refl Hid B1 B2). reflexivity.
+  rewrite (try_invalid_nonalpha KW "<" rest KW_ok eq_refl).
+  rewrite Hk.
+  rewrite (try_function_nonalpha "<" rest eq_refl).
+  rewrite (try_bracketed_other "{" "}") by reflexivity.
+  cbn [or_else]. rewrite Hb. reflexivity.
 Qed.
 
 Lemma with_index_idx k name base w1 inner w2 after :
@@ -452,6 +469,20 @@ Lemma with_index_bare k name base after :
 Proof. intros H. unfold with_index. rewrite (index_group_none after H). reflexivity. Qed.
 
 (* ================================================================== FUNCTION *)
+Lemma try_function_text name ws after :
+  is_fname name = true -> blanks ws = true ->
+  try_function (name ++ ws ++ String "(" after) = Some (mkMatch KFunction name None (String.length name + String.length ws)).
+Proof.
+  intros Hfn Bw. destruct (fname_nonempty _ Hfn) as (c & r & En & Hc & Hall). subst name.
+  assert (Hrest_fnc : head_not is_fnc (ws ++ String "(" after) = true).
+  { destruct ws as [|d ws]; cbn [append head_not]; [reflexivity|]. unfold blanks in Bw. cbn [all_chars] in Bw.
+    apply andb_true_iff in Bw as [Bw _]. apply (space_not_fnc d Bw). }
+  cbn [append]. unfold try_function. rewrite Hc.
+  change (String c (r ++ ws ++ String "(" after)) with (String c r ++ ws ++ String "(" after).
+  rewrite (span_while_all is_fnc (String c r) _ Hall Hrest_fnc).
+  rewrite (span_while_all is_space ws (String "(" after) Bw eq_refl). rewrite Ascii.eqb_refl. reflexivity.
+Qed.
+
 Theorem match_here_func pw name ws after :
   is_fname name = true -> kw_free name = true -> blanks ws = true ->
   match_here pw (name ++ ws ++ String "(" after)
@@ -472,10 +503,7 @@ Proof.
   rewrite (try_invalid_name KW name rest KW_ok Hall Hkw Hrest_idc).
   replace (if pw then None else try_keyword KW (name ++ rest)) with (@None tmatch)
     by (destruct pw; [reflexivity|symmetry; apply (try_keyword_name KW name rest KW_ok Hkw Hrest_idc)]).
-  cbn [or_else]. unfold try_function. rewrite En at 1. cbn [append]. rewrite Hc.
-  change (String c (r ++ rest)) with (String c r ++ rest). rewrite <- En.
-  rewrite (span_while_all is_fnc name rest Hall Hrest_fnc). unfold rest.
-  rewrite (span_while_all is_space ws (String "(" after) Bw eq_refl). cbn. reflexivity.
+  cbn [or_else]. unfold rest. rewrite (try_function_text name ws after Hfn Bw). reflexivity.
 Qed.
 
 (* ================================================================== KEYWORD *)
@@ -518,8 +546,8 @@ Proof.
   - destruct (prefix_rest_app _ _ _ _ Ep) as [(a' & E & ->)|(k' & Hne & -> & Hp)].
     + destruct a' as [|c a'].
       * rewrite sapp_nil_r in E. subst k0. cbn [append]. destruct after as [|d after]; [reflexivity|].
-        cbn in Hw. apply negb_true_iff in Hw. rewrite Hw. reflexivity.
-      * subst k. rewrite all_chars_app in Hkk. apply andb_true_iff in Hkk as [_ Hkk]. cbn in Hkk. apply andb_true_iff in Hkk as [Hc _].
+        cbn [head_not] in Hw. apply negb_true_iff in Hw. rewrite Hw. reflexivity.
+      * subst k. rewrite all_chars_app in Hkk. apply andb_true_iff in Hkk as [_ Hkk]. cbn [all_chars] in Hkk. apply andb_true_iff in Hkk as [Hc _].
         cbn [append]. rewrite (idc_word _ Hc).
         destruct Hin as [E|Hin].
         { exfalso. apply (f_equal String.length) in E. rewrite slen_app in E. cbn in E. lia. }
@@ -543,7 +571,7 @@ Proof.
   pose proof Hf as Hf'. unfold kw_follow in Hf'. apply andb_true_iff in Hf' as [Hw _].
   unfold match_here.
   rewrite try_verbatim_none.
-  2:{ destruct k as [|c k]; [discriminate|]. cbn. cbn in Ha. pose proof (alpha_not_tick c Ha) as H.
+  2:{ destruct k as [|c k]; [discriminate|]. cbn [append head_not]. cbn [head_sat] in Ha. pose proof (alpha_not_tick c Ha) as H.
       repeat (apply andb_true_iff in H as [H ?]). exact H. }
   rewrite (try_invalid_kw KW k after KW_ok Hall Hf). cbn [or_else].
   rewrite (try_keyword_kw KW k after KW_ok Hin Hall Hw). reflexivity.
@@ -561,7 +589,7 @@ Proof.
   unfold verb_body_ok. intros H. apply andb_true_iff in H as [H Hne]. apply andb_true_iff in H as [Hb Hn].
   apply negb_true_iff in Hb, Hn. destruct body as [|c1 body]; [discriminate|].
   unfold match_here, try_verbatim. cbn [append]. rewrite Ascii.eqb_refl.
-  unfold has_nl in Hn. cbn in Hn, Hb. apply orb_false_iff in Hn as [Hn1 Hn2]. apply orb_false_iff in Hb as [Hb1 Hb2].
+  unfold has_nl in Hn. cbn [has_char] in Hn, Hb. apply orb_false_iff in Hn as [Hn1 Hn2]. apply orb_false_iff in Hb as [Hb1 Hb2].
   rewrite Hn1. rewrite (find_on_line_app "`" body after Hb2 Hn2). cbn [or_else]. reflexivity.
 Qed.
 
@@ -599,7 +627,7 @@ Lemma lt_ok_nonalpha ws rest : blanks ws = true -> head_not is_space rest = true
 Proof.
   intros Bw Hs Ha. unfold lt_ok, try_bracketed. rewrite Ascii.eqb_refl.
   rewrite (span_while_all is_space ws rest Bw Hs).
-  destruct rest as [|a r]; [reflexivity|]. cbn in Ha. apply negb_true_iff in Ha. rewrite Ha. reflexivity.
+  destruct rest as [|a r]; [reflexivity|]. cbn [head_not] in Ha. apply negb_true_iff in Ha. rewrite Ha. reflexivity.
 Qed.
 (* "<" blanks NAME followed by something other than  blanks ">" *)
 Lemma lt_ok_name ws name after :
@@ -609,9 +637,9 @@ Proof.
   intros Bw Hne Hall Hidc Hgt. unfold lt_ok, try_bracketed. rewrite Ascii.eqb_refl.
   destruct name as [|c r]; [congruence|].
   assert (Hc : is_space c = false).
-  { cbn in Hall. apply andb_true_iff in Hall as [Hc _]. pose proof (fnc_not_space c (idc_fnc _ Hc)) as H. apply negb_true_iff in H. exact H. }
+  { cbn [all_chars] in Hall. apply andb_true_iff in Hall as [Hc _]. pose proof (fnc_not_space c (idc_fnc _ Hc)) as H. apply negb_true_iff in H. exact H. }
   rewrite (span_while_all is_space ws (String c r ++ after) Bw).
-  2:{ cbn. rewrite Hc. reflexivity. }
+  2:{ cbn [append head_not]. rewrite Hc. reflexivity. }
   cbn [append]. destruct (is_alpha_ c); [|reflexivity].
   change (String c (r ++ after)) with (String c r ++ after).
   rewrite (span_while_all is_idc (String c r) after Hall Hidc).
